@@ -11,6 +11,8 @@ class NumberUnaryExpr(number_unary_expr.NumberUnaryExpr):
         if self._unary_op.raw_text == '+':
             return self._operand.value
         elif self._unary_op.raw_text == '-':
-            return -self._operand.value
+            value = self._operand.value
+            # (unary minus on a Decimal rounds to the context precision; the sign of a literal is not arithmetic)
+            return value.copy_negate() if value else -value
         else:
             assert False
